@@ -242,10 +242,20 @@ def label_builder_shape(fi: FuncInfo, node_keys: str, edge_keys: str, directed: 
         loops = [outer_l, inner_l]
         i, vi, ro = loop_info(outer_l, ast.Module(body=[s_ for s_ in outer_l.body if s_ is not inner_l], type_ignores=[]))
         j, vj, ri = loop_info(inner_l, inner_l)
-        b1p = "'1:' + ':'.join((str($x) for $x in $$fr))"
-        b0p = f"'0:' + ':'.join(('' for $u in self.{edge_keys}))"
-        ones = [c for c in apps if pmatch(b1p, origin(defs, c.args[0])) is not None]
-        zeros = [c for c in apps if pmatch(b0p, origin(defs, c.args[0])) is not None]
+        from ..facts import concat_parts
+
+        def bit(c, lead, tail_pat):
+            """the join expression of an appended `<lead> + <join>` (or f"<lead>{<join>}"), else None"""
+            ps_ = concat_parts(origin(defs, c.args[0]))
+            if ps_ and len(ps_) == 2 and isinstance(ps_[0], ast.Constant) and ps_[0].value == lead:
+                t_ = origin(defs, ps_[1])
+                if pmatch(tail_pat, t_) is not None:
+                    return t_
+            return None
+        b1p = "':'.join((str($x) for $x in $$fr))"
+        b0p = f"':'.join(('' for $u in self.{edge_keys}))"
+        ones = [c for c in apps if bit(c, "1:", b1p) is not None]
+        zeros = [c for c in apps if bit(c, "0:", b0p) is not None]
         if same and vi and vj and len(ones) == 1 and len(zeros) == 1 and len(apps) == 2:
             bits_name = conts.pop()
             skip_ok = False
@@ -267,7 +277,7 @@ def label_builder_shape(fi: FuncInfo, node_keys: str, edge_keys: str, directed: 
             other_exits = [x for x in walk_local(outer_l) if isinstance(x, (ast.Break, ast.Return))]
             ok_pairs = skip_ok and guards_ok and not other_exits
             # the '1:' bit carries the selected attributes of exactly the edge (vi, vj)
-            fr = origin(defs, origin(defs, ones[0].args[0]).right.args[0].generators[0].iter)
+            fr = origin(defs, bit(ones[0], "1:", b1p).args[0].generators[0].iter)
             at_ok = False
             mfr = pmatch(f"tuple((self._freeze($$at.get($a, '')) for $a in self.{edge_keys}))", fr)
             if mfr is not None:
@@ -307,9 +317,10 @@ def label_builder_shape(fi: FuncInfo, node_keys: str, edge_keys: str, directed: 
     rets = sorted([n for n in walk_local(fn) if isinstance(n, ast.Return)], key=lambda n: n.lineno)
     ok_ret = False
     if rets and ns and bits_name:
-        m = pmatch("$ns + '||' + $es", rets[-1].value, {"ns": ns})
-        if m:
-            es_src = origin(defs, ast.Name(id=m["es"], ctx=ast.Load()))
+        from ..facts import concat_parts
+        rp_ = concat_parts(rets[-1].value)
+        if rp_ and len(rp_) == 3 and norm(rp_[0]) == ns and isinstance(rp_[1], ast.Constant) and rp_[1].value == "||":
+            es_src = origin(defs, rp_[2])
             ok_ret = pmatch("'|'.join($eb)", es_src, {"eb": bits_name}) is not None
     if unrecognised and not ok_ret:
         ok_ret = None
